@@ -6,11 +6,15 @@ import checklib as C
 import instgen
 from props import common, c07
 
-MODULE = "Rspirv.Props.C01"
+MODULE = "Rspirv.Props.C01All"
 P = "Rspirv.Props.C01."
 THEOREMS = [P + n for n in ("pick_perm", "pick_sorted", "pick_sublist", "sect_push", "step_openOk", "step_part", "run_part",
                             "C01_partition", "C01_traversal", "C01_perm", "C01_sublist", "C01_identity", "C01_words",
-                            "feed_insts", "C01_loadBytes")]
+                            "feed_insts", "C01_loadBytes")] + \
+           ["Rspirv.Props.C01Words." + n for n in ("str_words", "elem_words", "operand_words", "literal_words", "many_words",
+                                                   "nested_words", "specOp_words", "one_words", "loop_words", "inst_words",
+                                                   "packStr_words", "assemble_words", "opWords_agree", "instWords_agree",
+                                                   "parseInst_words")]
 NEEDS = ("header", "core", "glsl", "opencl", "traversals", "decode", "operand_enum", "asm_arms", "parse_operand", "operands",
          "operand_reflect", "disas_operand")
 SECTION = {"cap": 0, "ext": 1, "imp": 2, "mm": 3, "ep": 4, "em": 5, "dbg1": 6, "dbg2": 7, "dbg3": 8, "ann": 9, "tgv": 10}
@@ -112,7 +116,7 @@ def run(ctx):
         hok, herr = C.build_harness(ctx, bins=("impl",))
         have = C.need(ctx, *NEEDS)
         failing = C.prove(ctx, MODULE, THEOREMS, extra_targets=["driver"],
-                          files=["Rspirv/Props/C01.lean", "Rspirv/Model/Loader.lean", "Rspirv/Model/LoadBytes.lean",
+                          files=["Rspirv/Props/C01.lean", "Rspirv/Props/C01Words.lean", "Rspirv/Props/C02.lean", "Rspirv/Model/Loader.lean", "Rspirv/Model/LoadBytes.lean",
                                  "Rspirv/Model/Assemble.lean", "Rspirv/Model/Module.lean"]) if have else []
     for n, e in failing:
         ctx.issue(f"theorem:{n}", f"Lean obligation no longer checks: {e['msg'][:300]}", witness=e)
@@ -222,7 +226,7 @@ def run(ctx):
     ctx.samples = [{"request": reqs[i][:80], "implementation": impl[i][:100]} for i in (0, len(reqs) // 2, len(reqs) - 1)]
     ctx.assumptions += [
         "hypothesis of the theorems (Tidy): at most one OpMemoryModel (excluded by the property) and no OpFunctionParameter after the function's first OpLabel (recorded finding)",
-        "instruction-level word equality (parse then assemble of one instruction) is decided by the differential and the generator's independent encoder, not by a theorem (C01_partial at that layer; C02 is the converse direction)"]
+        "instruction level (Props/C01Words.lean): the words parse_inst consumes for i and the words the assembler emits for i both satisfy InstWords i, and two such word lists agree in length, first word, result type/id and operand words, strings up to and including their NUL (32-bit words, word count below 65536, byte strings)"]
     return C.finish(ctx, level="proof", checker_cmd="lake build Rspirv.Props.C01 + #print axioms",
                     rule="seeded modules over all core opcodes in layout order (must come back word-identical after the header), with whole sections permuted/interleaved (must come back as the stable partition), with garbage after string terminators (must come back zero padded); outputs loaded again; distinct non-trivial = distinct opcodes round-tripped",
                     trusted=["hand models Loader/LoadBytes/Assemble/Module + differential harness (loadasm)", "instgen's independent encoder"])
